@@ -411,8 +411,18 @@ class SmtText(str):
         return s
 
 
+class GhostPlainSolver(GhostSolver):
+    """z3.Solver(): distinct from GhostOptimize for isinstance tests"""
+
+    def __init__(self, *a, **k):
+        GhostSolver.__init__(self)
+
+
 class GhostOptimize(GhostSolver):
     kind = "Optimize"
+
+    def __init__(self, *a, **k):
+        GhostSolver.__init__(self)
 
     def minimize(self, v):
         self.objectives.append(("min", _plain(v)))
@@ -433,7 +443,9 @@ def make_solver(*a, **k):
 
 
 def make_solver_for(logic, *a, **k):
-    return GhostSolver(logic=logic)
+    s = GhostPlainSolver()
+    s.logic = logic
+    return s
 
 
 def make_optimize(*a, **k):
